@@ -135,6 +135,22 @@ class ExtendSplitSim(DS.DimwiseSim):
             sabs += abs(w) * float(np.max(np.abs(v)))
         return tot, sabs
 
+    def fresh_quad(self, leaf, level_coarse):
+        """the operation applied independently: a fresh instance of the library's grid class and an un-cached twin of
+        the integrand (the property is about bookkeeping, not about the local quadrature rule, which has a midpoint
+        special case for one-point grids without boundary)"""
+        import numpy as np
+        from sparseSpACE.Grid import TrapezoidalGrid
+        from simcore.env import SimFunction
+        c = self.cfg
+        g = TrapezoidalGrid(a=np.array(c["a"], dtype=float), b=np.array(c["b"], dtype=float), boundary=c["boundary"])
+        f2 = SimFunction(self.f.key, nnoise=self.f.nnoise, probes=self.f.probes, a=self.f.a, b=self.f.b, jump=self.f.jump, offset=self.f.offset)
+        v = np.asarray(g.integrate(f2, [int(x) for x in level_coarse], np.array(leaf.start, dtype=float), np.array(leaf.end, dtype=float)), dtype=float)
+        g.setCurrentArea(np.array(leaf.start, dtype=float), np.array(leaf.end, dtype=float), [int(x) for x in level_coarse])
+        P, W = g.get_points_and_weights()
+        sabs = sum(abs(w) for w in W) * (2.0 + abs(self.f.offset)) if len(W) else 0.0
+        return v, float(sabs)
+
     def recompute_result(self):
         import numpy as np
         tot = np.zeros(self.f.output_length())
@@ -144,7 +160,7 @@ class ExtendSplitSim(DS.DimwiseSim):
             for cg in self.sa.scheme:
                 lv, do = self.sa.coarsen_grid(cg.levelvector, leaf)
                 if do:
-                    v, sabs = self.local_quad(leaf, lv)
+                    v, sabs = self.fresh_quad(leaf, lv)
                     tot += cg.coefficient * v
                     S += abs(cg.coefficient) * sabs
                     n += 1
